@@ -152,3 +152,40 @@ func checkEchoKeepsRest(c *Ctx, r *Report, read *ssa.Function) {
 		}
 	}
 }
+
+// checkNetconfScanEveryPass: every pass of the NETCONF read loop tests the buffer for a complete message, whether or
+// not the poll returned new bytes (the remainder kept after an echo is examined by such a pass).
+func checkNetconfScanEveryPass(c *Ctx, r *Report, read *ssa.Function) {
+	rule := "C08/scan-every-pass"
+	chRead := c.LookupFunc("channel", "Channel", "Read")
+	pp := c.LookupField("channel", "Channel", "PromptPattern")
+	if chRead == nil || pp == nil {
+		r.Anchor(rule, "(*channel.Channel).Read / channel.Channel.PromptPattern")
+		return
+	}
+	isMatch := func(in ssa.Instruction) bool {
+		call, ok := in.(*ssa.Call)
+		if !ok || len(call.Call.Args) < 2 {
+			return false
+		}
+		o := CalleeObj(call)
+		if o == nil || o.Pkg() == nil || o.Pkg().Path() != "regexp" {
+			return false
+		}
+		f, _, ok := fieldLoad(call.Call.Args[0])
+		return ok && f == pp
+	}
+	n := 0
+	for _, ci := range staticCallsTo(read, chRead) {
+		n++
+		rr := reachFrom(read, ci, isMatch, nil)
+		if rr.visited[ci] {
+			r.Bad(rule, "NETCONF reader poll loop", c.Pos(ci.Pos()), "a pass of the read loop can go back to polling without testing the buffer for a complete message (e.g. when the poll returned nothing): a reply that is already complete in the buffer -- what was kept after trimming the echo -- is not filed until further bytes arrive, the call times out, and a later message is glued to it", rr.witness(c, ci)...)
+		} else {
+			r.OK(rule, "NETCONF reader poll loop", c.Pos(ci.Pos()), "every path from the poll back to the poll tests the delimiter pattern")
+		}
+	}
+	if n == 0 {
+		r.Unk(rule, "NETCONF reader poll loop", c.Pos(read.Pos()), "the reader does not call Channel.Read")
+	}
+}
